@@ -423,6 +423,15 @@ type runner struct {
 	g     *gen
 	scrib bool
 	clock *vclock.Clock
+	// crash harness: called right before an operation is issued / right after it was observed
+	pre  func(opTerm string)
+	post func(entry string)
+}
+
+func (rn *runner) before(opTerm string) {
+	if rn.pre != nil {
+		rn.pre(opTerm)
+	}
 }
 
 func (rn *runner) dump(tg *target) map[string]string {
@@ -485,7 +494,11 @@ func (rn *runner) emit(tg *target, op, res string) {
 	if tg.out.Len() > 0 {
 		tg.out.WriteString(";\n  ")
 	}
-	tg.out.WriteString("(" + op + ", " + rn.observe(tg, res) + ")")
+	entry := "(" + op + ", " + rn.observe(tg, res) + ")"
+	tg.out.WriteString(entry)
+	if rn.post != nil {
+		rn.post(entry)
+	}
 }
 
 func ctxFor(cancelled bool) context.Context {
@@ -528,6 +541,7 @@ func (rn *runner) doAdd() {
 	fresh := fmt.Sprintf("t%d", *rn.ts[0].s.idCtr+1)
 	opTerm := "OAdd " + cq.Bool(cancelled) + " " + cq.Time(now) + " " + cq.Str(fresh) + " " + cq.UParam(p)
 	added := ""
+	rn.before(opTerm)
 	for _, tg := range rn.ts {
 		pp := cloneParam(p)
 		t, err := tg.s.repo.AddTask(ctxFor(cancelled), pp)
@@ -577,6 +591,7 @@ func (rn *runner) doUpdate() {
 		p = def.TaskUpdateParam{}
 	}
 	opTerm := "OUpdate " + cq.Bool(cancelled) + " " + cq.Str(id) + " " + cq.UParam(p)
+	rn.before(opTerm)
 	for _, tg := range rn.ts {
 		pp := cloneParam(p)
 		err := tg.s.repo.UpdateById(ctxFor(cancelled), id, pp)
@@ -610,12 +625,15 @@ func (rn *runner) doSimple(kind string) {
 		switch kind {
 		case "cancel":
 			opTerm = "OCancel " + cq.Bool(cancelled) + " " + cq.Time(now) + " " + cq.Str(id)
+			rn.before(opTerm)
 			err = tg.s.repo.Cancel(ctxFor(cancelled), id)
 		case "dispatch":
 			opTerm = "ODispatch " + cq.Bool(cancelled) + " " + cq.Time(now) + " " + cq.Str(id)
+			rn.before(opTerm)
 			err = tg.s.repo.MarkAsDispatched(ctxFor(cancelled), id)
 		case "done":
 			opTerm = "ODone " + cq.Bool(cancelled) + " " + cq.Time(now) + " " + cq.Str(id) + " " + es
+			rn.before(opTerm)
 			err = tg.s.repo.MarkAsDone(ctxFor(cancelled), id, e)
 		}
 		res := cq.Err(err, isCtxErr)
